@@ -44,7 +44,9 @@ Definition expected_callsites : list (list Z) :=
 Definition expected_dispatch : list (list Z) :=
   [ [FN_supla_esp_calcfg_request]; [FN_supla_esp_channel_set_value]; [FN_srpc_getdata]; [FN_srpc_rd_free]; [FN_uptime_sec];
     [FN_supla_log]; [FN_supla_esp_on_version_error]; [FN_supla_esp_on_register_result]; [FN_supla_esp_channelgroup_set_value];
-    [FN_supla_esp_channel_set_activity_timeout_result]; [FN_supla_esp_update_url_result]; [FN_supla_esp_get_channel__state] ].
+    [FN_supla_esp_channel_set_activity_timeout_result]; [FN_supla_esp_update_url_result]; [FN_supla_esp_get_channel__state];
+    (* RETREIVE_CHANNEL_CONFIG *)
+    [FN_supla_esp_channel_config_result]; [FN_srpc_ds_async_set_channel_config_result]; [FN_supla_esp_set_channel_config] ].
 Definition code_shape : Prop := CALLSITES = expected_callsites /\ DISPATCH = expected_dispatch.
 Lemma code_shape_holds : code_shape.
 Proof. split; reflexivity. Qed.
@@ -57,6 +59,9 @@ Record consts_facts := {
   cf_press : 0 < PRESS_TIME_MS * 1000 < 4294967296;
   cf_count : 1 < PRESS_COUNT <= 127;
   cf_text : PRESS_COUNT = 10 /\ PRESS_TIME_MS = 5000;      (* the numbers of the property text *)
+  (* supla_esp_input_set_active_triggers disarms the input timer and clears the click counter only together, inside the
+     `prev_triggers != active_triggers` block — as Model.set_active_triggers does *)
+  cf_sat : SAT_DISARM_GUARDED = 1 /\ SAT_RESET_GUARDED = 1;
   cf_states : STATE_ACTIVE <> STATE_INACTIVE;
   cf_res : RES_UNAUTHORIZED <> RES_DONE /\ RES_UNAUTHORIZED <> RES_NOT_SUPPORTED }.
 Lemma consts_ok : consts_facts.
@@ -86,6 +91,10 @@ Lemma getn_setn_other {A} (l : list A) i j x : i <> j -> getn (setn l i x) j = g
 Proof.
   unfold getn, setn; intros H. destruct (j <? 0) eqn:Ej; auto. destruct (i <? 0) eqn:Ei; auto.
   apply nth_updn_other. apply Z.ltb_ge in Ej, Ei. intros C. apply H. apply Z2Nat.inj; lia.
+Qed.
+Lemma getn_map {A B} (f : A -> B) l i y : getn (map f l) i = Some y -> exists x, getn l i = Some x /\ y = f x.
+Proof.
+  unfold getn. destruct (i <? 0); [discriminate|]. rewrite nth_error_map. destruct (nth_error l (Z.to_nat i)); cbn; intros H; inversion H; eauto.
 Qed.
 Lemma getn_setn_none {A} (l : list A) i x : getn l i = None -> setn l i x = l.
 Proof.
@@ -319,7 +328,9 @@ Proof.
   destruct (call =? CALL_GROUP_SET_VALUE) eqn:E3.
   { apply Z.eqb_eq in E3. destruct (len p =? GNV_SIZE) eqn:E; [|cbn in H; congruence].
     apply Z.eqb_eq in E. right; right. repeat split; auto. apply set_value_calib in H; auto. }
-  destruct (call =? CALL_CALCFG_REQUEST) eqn:E4; [|cbn in H; congruence].
+  destruct (call =? CALL_CALCFG_REQUEST) eqn:E4.
+  2:{ destruct ((call =? CALL_SET_CHANNEL_CONFIG) || (call =? CALL_GET_CHANNEL_CONFIG_RESULT)); [|cbn in H; congruence].
+      destruct (chcfg_is_at p); exfalso; apply H; reflexivity. }
   apply Z.eqb_eq in E4. destruct (calcfg_gate p) eqn:G; [|cbn in H; congruence].
   destruct (calcfg s1 p) as [s' o] eqn:C. cbn [fst] in H.
   destruct (calcfg_calib _ _ _ _ C H) as (A & B & D). left. auto.
@@ -539,7 +550,10 @@ Qed.
 
 (* ------------------------------------------------------------------------------------------------ *)
 (* event history (specification side) *)
-Definition ev_ok (e : ev) : Prop := match e with Time dt => 0 <= dt | _ => True end.
+(* events the theorems about histories range over: time does not run backwards, and channel-configuration messages for
+   relay / shutter functions (handlers this model does not follow, see Model.chcfg_unmodelled) are excluded *)
+Definition ev_ok (e : ev) : Prop :=
+  match e with Time dt => 0 <= dt | Srv c p => chcfg_unmodelled c p = false | _ => True end.
 
 Lemma hist_snoc i pre e : hist i (pre ++ [e]) = hstep i (hist i pre) e.
 Proof. unfold hist. rewrite fold_left_app. reflexivity. Qed.
@@ -844,9 +858,13 @@ Proof.
   - intros H; inversion H; subst. split; [apply frame_refl|]. split; [intros []|intros t []].
 Qed.
 
+Definition gframe (s s' : st) : Prop :=
+  now s' = now s /\ boot32 s' = boot32 s /\ silent s' = silent s /\ halted s' = halted s /\ booted s' = booted s.
+Lemma frame_gframe s s' : frame s s' -> gframe s s'.
+Proof. unfold frame, gframe. tauto. Qed.
 Lemma srv_frame_cause s call p s' o :
   srv s call p = (s', o) ->
-  frame s s' /\ no_factory o /\
+  (frame s s' \/ (gframe s s' /\ exists ch m, inputs s' = at_cfg (inputs s) ch m)) /\ no_factory o /\
   (forall t, In (EnterCfg t) o -> call = CALL_CALCFG_REQUEST /\ calcfg_gate p = true /\
                                   s32 (le32 p REQ_OFF_COMMAND) = CMD_ENTER_CFG_MODE /\ nthz p REQ_OFF_AUTH = 1).
 Proof.
@@ -855,29 +873,34 @@ Proof.
   { intros oo [->| ->]; split; try (intros []; fail); try (intros t []; fail).
     - intros [X|[]]; discriminate. - intros t [X|[]]; discriminate. }
   destruct (negb (srpc_up s1)).
-  { intros H; inversion H; subst. split; [auto|].
+  { intros H; inversion H; subst. split; [left; auto|].
     destruct (TRIV (if (call =? CALL_CALCFG_REQUEST) && unauth_class p then [Inert true] else [])) as [T1 T2].
     { destruct ((call =? CALL_CALCFG_REQUEST) && unauth_class p); auto. }
     split; [auto|intros t Ht; destruct (T2 t Ht)]. }
   destruct (call =? CALL_REGISTER_RESULT).
   { destruct ((len p =? REGRES_SIZE) && (s32 (le32 p REGRES_OFF_CODE) =? RESULTCODE_TRUE_)); intros H; inversion H; subst;
-      (split; [apply (frame_trans _ _ _ FP); repeat split|split; [intros []|intros t []]]). }
+      (split; [left; apply (frame_trans _ _ _ FP); repeat split|split; [intros []|intros t []]]). }
   destruct (call =? CALL_SET_VALUE).
   { destruct (len p =? NV_SIZE).
-    - intros H. apply set_value_frame in H. destruct H as (A & B & C). split; [apply (frame_trans _ _ _ FP A)|]. split; [auto|intros t Ht; destruct (C t Ht)].
-    - intros H; inversion H; subst. split; [auto|]. split; [intros []|intros t []]. }
+    - intros H. apply set_value_frame in H. destruct H as (A & B & C). split; [left; apply (frame_trans _ _ _ FP A)|]. split; [auto|intros t Ht; destruct (C t Ht)].
+    - intros H; inversion H; subst. split; [left; auto|]. split; [intros []|intros t []]. }
   destruct (call =? CALL_GROUP_SET_VALUE).
   { destruct (len p =? GNV_SIZE).
-    - intros H. apply set_value_frame in H. destruct H as (A & B & C). split; [apply (frame_trans _ _ _ FP A)|]. split; [auto|intros t Ht; destruct (C t Ht)].
-    - intros H; inversion H; subst. split; [auto|]. split; [intros []|intros t []]. }
+    - intros H. apply set_value_frame in H. destruct H as (A & B & C). split; [left; apply (frame_trans _ _ _ FP A)|]. split; [auto|intros t Ht; destruct (C t Ht)].
+    - intros H; inversion H; subst. split; [left; auto|]. split; [intros []|intros t []]. }
   destruct (call =? CALL_CALCFG_REQUEST) eqn:EC.
-  2:{ intros H; inversion H; subst. split; [auto|]. split; [intros []|intros t []]. }
+  2:{ destruct ((call =? CALL_SET_CHANNEL_CONFIG) || (call =? CALL_GET_CHANNEL_CONFIG_RESULT)).
+      - destruct (chcfg_is_at p); intros H; inversion H; subst.
+        + split; [right|split; [intros []|intros t []]]. destruct FP as (F1 & F2 & F3 & F4 & F5 & F6).
+          split; [repeat split; cbn; auto|]. do 2 eexists. cbn [inputs with_inputs]. rewrite F1. reflexivity.
+        + split; [left; auto|]. split; [intros []|intros t []].
+      - intros H; inversion H; subst. split; [left; auto|]. split; [intros []|intros t []]. }
   apply Z.eqb_eq in EC. destruct (calcfg_gate p) eqn:EG.
-  2:{ intros H; inversion H; subst. split; [auto|].
+  2:{ intros H; inversion H; subst. split; [left; auto|].
       destruct (TRIV (if unauth_class p then [Inert true] else [])) as [T1 T2]; [destruct (unauth_class p); auto|].
       split; [auto|intros t Ht; destruct (T2 t Ht)]. }
   destruct (calcfg s1 p) as [s2 o2] eqn:E. apply calcfg_frame_cause in E. destruct E as (A & B & C).
-  intros H; inversion H; subst. split; [apply (frame_trans _ _ _ FP A)|].
+  intros H; inversion H; subst. split; [left; apply (frame_trans _ _ _ FP A)|].
   assert (SUB : forall x, In x (filter (fun x => match x with CfgFlash _ _ _ => false | _ => true end) o2 ++
                                (if unauth_class p then [Inert (list_eqb (concat (calib_all s1)) (concat (calib_all s')) &&
                                                                (entertime s1 =? entertime s') && Bool.eqb (srpc_up s1) (srpc_up s'))] else []) ++
@@ -906,6 +929,32 @@ Proof.
 Qed.
 
 (* ------------------------------------------------------------------------------------------------ *)
+Lemma sat_rel x m :
+  i_last (set_active_triggers x m) = i_last x /\ i_lsc (set_active_triggers x m) = i_lsc x /\
+  i_adv (set_active_triggers x m) = i_adv x /\
+  (i_cnt (set_active_triggers x m) = i_cnt x \/ i_cnt (set_active_triggers x m) = 0) /\
+  (i_armed (set_active_triggers x m) = true -> i_armed x = true).
+Proof.
+  unfold set_active_triggers.
+  match goal with |- context [let '(a, b) := ?T in _] => destruct T as [rel drel] end.
+  cbn [i_last i_cnt i_armed i_lsc i_adv]. repeat split; auto; match goal with |- context [if ?c then _ else _] => destruct c end; auto; discriminate.
+Qed.
+(* an ACTIONTRIGGER configuration (same or different ActiveActions, any channel, any time) keeps the invariant *)
+Lemma inv_at_cfg s s' pre e ch m :
+  Forall ev_ok pre -> inv s pre -> gframe s s' -> inputs s' = at_cfg (inputs s) ch m ->
+  (forall i stt, e <> Notify i stt) -> (forall dt, e <> Time dt) -> inv s' (pre ++ [e]).
+Proof.
+  intros Hok [In Ii] (G1 & G2 & G3 & G4 & G5) HI N T. split.
+  - rewrite G1, In. symmetry. apply (hist_other_events 0 pre e N T).
+  - intros i y G. rewrite (proj1 (hist_other_events i pre e N T)). rewrite HI in G. unfold at_cfg in G.
+    apply getn_map in G. destruct G as (x & Gx & ->). specialize (Ii i x Gx).
+    destruct (i_chan x =? ch); [|apply (linv_frame s); auto].
+    destruct Ii as (A1 & A2 & A3 & A4). destruct (sat_rel x m) as (S1 & S2 & S3 & S4 & S5).
+    destruct (hist_facts i pre Hok) as (F1 & F2 & F3).
+    unfold linv. rewrite S1, S2, S3. split; [auto|]. split; [destruct S4 as [-> | ->]; lia|]. split; [destruct S4 as [-> | ->]; lia|].
+    intros Ha. destruct (A4 (S5 Ha)) as (C1 & C2 & C3 & C4 & C5). split; [congruence|]. split; [congruence|]. auto.
+Qed.
+
 (* one step of the automaton: invariant + the only causes of EnterCfg / Factory *)
 Lemma step_inv_cause (CF : consts_facts) s pre e s' o :
   Forall ev_ok pre -> ev_ok e -> inv s pre -> live s -> step s e = (s', o) ->
@@ -927,8 +976,11 @@ Proof.
     + intros _. apply (inv_frame s); auto; try (intros; discriminate). apply frame_pre_iter.
     + destruct (frame_pre_iter s) as (_ & _ & _ & _ & _ & B). split; [congruence|]. split; [intros t []|intros []].
   - (* Srv *) intros H. destruct (srv_frame_cause _ _ _ _ _ H) as (F & NF & C). split.
-    + intros _. apply (inv_frame s); auto; intros; discriminate.
-    + destruct F as (_ & _ & _ & _ & _ & B). split; [congruence|]. split.
+    + intros _. destruct F as [F|(F & ch & m & HI)].
+      * apply (inv_frame s); auto; intros; discriminate.
+      * apply (inv_at_cfg s s' pre _ ch m); auto; intros; discriminate.
+    + assert (B : booted s' = booted s) by (destruct F as [F|(F & _)]; [apply frame_gframe in F|]; destruct F as (_ & _ & _ & _ & B); exact B).
+      split; [congruence|]. split.
       * intros t Ht. destruct (C t Ht) as (C1 & C2 & C3 & C4). subst call. right; right. exists payload. auto.
       * intros Hf. destruct (NF Hf).
   - (* Notify *) intros H. destruct (notify_inv_cause CF s pre i stt s' o Hok I Lh H) as (A & B & C & D).
@@ -1020,10 +1072,6 @@ Proof.
   cbn [i_last i_cnt i_armed]. repeat split; auto; intros H; rewrite H; match goal with |- (if ?c then _ else _) = _ => destruct c end; reflexivity.
 Qed.
 
-Lemma getn_map {A B} (f : A -> B) l i y : getn (map f l) i = Some y -> exists x, getn l i = Some x /\ y = f x.
-Proof.
-  unfold getn. destruct (i <? 0); [discriminate|]. rewrite nth_error_map. destruct (nth_error l (Z.to_nat i)); cbn; intros H; inversion H; eauto.
-Qed.
 
 Lemma boot_inv b32 bl fc ins rs s0 o0 :
   boot b32 bl fc ins rs = (s0, o0) ->
@@ -1109,12 +1157,12 @@ Proof.
 Qed.
 
 Lemma no_other_message_touches_calibration_except_known_thm : code_shape -> forall s call p,
-  live s -> ~ known_class s call p ->
+  live s -> chcfg_unmodelled call p = false -> ~ known_class s call p ->
   calib_all (fst (step s (Srv call p))) <> calib_all s ->
   call = CALL_CALCFG_REQUEST /\ calcfg_gate p = true /\ s32 (le32 p REQ_OFF_COMMAND) = CMD_RECALIBRATE /\ nthz p REQ_OFF_AUTH <> 0 /\
   existsb (rmatch (s32 (le32 p REQ_OFF_CHANNEL))) (rss (pre_iter s)) = true.
 Proof.
-  intros _ s call p L NK H. destruct (srv_touches_calibration_thm s call p L H) as [A|A]; [auto|contradiction].
+  intros _ s call p L _ NK H. destruct (srv_touches_calibration_thm s call p L H) as [A|A]; [auto|contradiction].
 Qed.
 
 (* ------------------------------------------------------------------------------------------------ *)
@@ -1218,12 +1266,12 @@ Lemma calib_eq_dec (a b : list Z) : {a = b} + {a <> b}.
 Proof. apply list_eq_dec. apply Z.eq_dec. Qed.
 
 Lemma no_other_message_touches_calibration_except_known_precise_thm : code_shape -> forall s call p,
-  live s -> ~ known_class_precise s call p ->
+  live s -> chcfg_unmodelled call p = false -> ~ known_class_precise s call p ->
   calib_all (fst (step s (Srv call p))) <> calib_all s ->
   call = CALL_CALCFG_REQUEST /\ calcfg_gate p = true /\ s32 (le32 p REQ_OFF_COMMAND) = CMD_RECALIBRATE /\ nthz p REQ_OFF_AUTH <> 0 /\
   existsb (rmatch (s32 (le32 p REQ_OFF_CHANNEL))) (rss (pre_iter s)) = true.
 Proof.
-  intros _ s call p L NK H. destruct (srv_touches_calibration_thm s call p L H) as [A|A]; [auto|]. exfalso.
+  intros _ s call p L _ NK H. destruct (srv_touches_calibration_thm s call p L H) as [A|A]; [auto|]. exfalso.
   pose proof (cf_calls consts_ok) as (C1 & C2 & C3 & C4 & C5 & C6).
   rewrite (step_srv _ _ _ L) in H. unfold srv in H. rewrite <- (calib_pre_iter s) in H. set (s1 := pre_iter s) in *.
   destruct (negb (srpc_up s1)); [cbn in H; congruence|].
